@@ -418,6 +418,9 @@ def _from_dict_info(rel, cls):
                 elif base == "lang_config" and id(n) not in shadowed:
                     if k not in lang:
                         lang.append(k)
+    for k in _fixed_block_info(c)[1]:
+        if k not in lang:
+            lang.append(k)
     seen = {}
     for _, _, _, k, d in sorted(events):
         if k in seen:
@@ -427,6 +430,97 @@ def _from_dict_info(rel, cls):
         seen[k] = d
         opts.append((k, d))
     return opts, lang
+
+
+_LANG_KEYS = ("python", "typescript", "javascript", "rust")
+
+
+def _fixed_block_info(c):
+    """dry's shape: `<lang>_config = config.get("<lang>", {})`, constructor keywords `<lang>_<opt>=<lang>_config.get("<opt>")`,
+    a getter `get_<opt>_for_language` that prefers the language's field when it is not None.
+    Returns (languages whose block is dereferenced, options every such block overrides, those of them no validation looks at,
+    whether the blocks' types are tested)"""
+    fd = [n for n in c.body if isinstance(n, ast.FunctionDef) and n.name == "from_dict"]
+    if len(fd) != 1:
+        raise Unsupported(f"{c.name}: from_dict")
+    names = {}
+    for n in ast.walk(fd[0]):
+        if isinstance(n, ast.Assign) and isinstance(n.targets[0], ast.Name) and isinstance(n.value, ast.Call) \
+                and ast.unparse(n.value.func) == "config.get" and n.value.args and _const_str(n.value.args[0]) in _LANG_KEYS:
+            lang = _const_str(n.value.args[0])
+            if n.targets[0].id != lang + "_config" or len(n.value.args) != 2 or ast.unparse(n.value.args[1]) != "{}":
+                raise Unsupported(f"{c.name}.from_dict: language block assignment")
+            names[n.targets[0].id] = lang
+    if not names:
+        return [], [], [], True
+    per_lang = {lang: [] for lang in names.values()}
+    for n in ast.walk(fd[0]):
+        if isinstance(n, ast.keyword) and isinstance(n.value, ast.Call) and isinstance(n.value.func, ast.Attribute) \
+                and n.value.func.attr == "get" and ast.unparse(n.value.func.value) in names:
+            lang = names[ast.unparse(n.value.func.value)]
+            k = _const_str(n.value.args[0]) if n.value.args else None
+            if k is None or len(n.value.args) != 1 or n.arg != f"{lang}_{k}":
+                raise Unsupported(f"{c.name}.from_dict: language block option {n.arg}")
+            per_lang[lang].append(k)
+    uses = [n for n in ast.walk(fd[0]) if isinstance(n, ast.Name) and n.id in names and isinstance(n.ctx, ast.Load)]
+    if len(uses) != sum(len(v) for v in per_lang.values()):
+        raise Unsupported(f"{c.name}.from_dict: a language block is used in an unknown way")
+    langs = sorted(per_lang, key=_LANG_KEYS.index)
+    common = [k for k in per_lang[langs[0]] if all(k in per_lang[l] for l in langs)]
+    src = ast.unparse(c)
+    for k in common:
+        g = [n for n in c.body if isinstance(n, ast.FunctionDef) and n.name == f"get_{k}_for_language"]
+        gs = ast.unparse(g[0]) if len(g) == 1 else ""
+        if not all(f"'{l}': self.{l}_{k}" in gs for l in langs) or f"return override if override is not None else self.{k}" not in gs:
+            raise Unsupported(f"{c.name}: getter of the per-language option {k}")
+    validators = "".join(ast.unparse(n) for n in c.body if isinstance(n, ast.FunctionDef) and n.name in ("__post_init__", "_validate_positive_fields"))
+    unvalidated = [k for k in common if not all(f"self.{l}_{k}" in validators for l in langs)]
+    checked = all(f"isinstance({nm}, dict)" in ast.unparse(fd[0]) for nm in names)
+    return langs, common, unvalidated, checked
+
+
+def type_checks():
+    """where a mapping is expected and something else is written (`nesting: 5`, `nesting: {python: [1]}`): which rules test the
+    type before calling .get on it"""
+    own, fixed, unval, sect = [], [], [], []
+    u = ast.unparse(find_func(parse("src/core/linter_utils.py"), "load_linter_config"))
+    if "if not isinstance(config_dict, dict):\n        return config_class()" not in u:
+        raise Unsupported("load_linter_config: the section's type is no longer tested")
+    for unit, rel, cls, fns, crel, ccls in UNITS:
+        c = find_class(parse(crel), ccls)
+        fd = [n for n in c.body if isinstance(n, ast.FunctionDef) and n.name == "from_dict"]
+        if len(fd) != 1:
+            raise Unsupported(f"{ccls}: from_dict")
+        src = ast.unparse(fd[0])
+        derefs = [n for n in ast.walk(fd[0]) if isinstance(n, ast.Subscript) and ast.unparse(n) == "config[language]"]
+        if derefs:
+            if len(derefs) != 1 or "if language and language in config:\n        lang_config = config[language]" not in src:
+                raise Unsupported(f"{ccls}.from_dict: language block shape")
+            if "isinstance(lang_config, dict)" not in src:
+                own.append(unit)
+        elif "lang_config" in src:
+            raise Unsupported(f"{ccls}.from_dict: lang_config of unknown origin")
+        langs, _, unvalidated, checked = _fixed_block_info(c)
+        if langs and not checked:
+            fixed.append(f"({coq_string(unit)}, {coq_str_list(langs)})")
+        if unvalidated:
+            unval.append(unit)
+        # the rule's own loader: every from_dict(X) outside load_linter_config needs isinstance(X, dict)
+        for fn in fns:
+            if fn == "_config_key":
+                continue
+            node = _func_in_class(rel, cls, fn)
+            fsrc = ast.unparse(node)
+            for n in ast.walk(node):
+                if isinstance(n, ast.Call) and isinstance(n.func, ast.Attribute) and n.func.attr == "from_dict":
+                    if len(n.args) < 1 or not isinstance(n.args[0], ast.Name):
+                        raise Unsupported(f"{cls}.{fn}: from_dict argument")
+                    if f"isinstance({n.args[0].id}, dict)" not in fsrc and unit not in sect:
+                        sect.append(unit)
+    return (defn("lang_block_unchecked_own", "list string", coq_str_list(own))
+            + defn("lang_block_unchecked_fixed", "list (string * list string)", coq_list(fixed))
+            + defn("lang_values_unvalidated", "list string", coq_str_list(unval))
+            + defn("section_type_unchecked", "list string", coq_str_list(sect)))
 
 
 def opt_defaults():
@@ -661,6 +755,7 @@ ITEMS = [
     ("lookup_table", lookup_table),
     ("opt_defaults", opt_defaults),
     ("retry_without_language", retry_without_language),
+    ("type_checks", type_checks),
     ("guards", guards),
     ("cli_overrides", cli_overrides),
     ("dash_config", dash_config),
